@@ -140,8 +140,15 @@ def run(loader, R, tier):
         "parameter type, for every visitor whose apply() returns a tribool "
         "member (test_visitors.cpp and matrices/is_*.cpp). R34.3: the "
         "derived queries (is_nonzero, is_infinite, is_transcendental) are "
-        "not_tribool of the primary visitor. The Add/Mul/Pow combination "
-        "rules and the Assumptions closure are not decided.")
+        "not_tribool of the primary visitor. R34.5: every handler is "
+        "interpreted under every assignment of true/false/indeterminate to "
+        "its tribool sub-expressions (loops unrolled once and twice) and "
+        "must be monotone in the information order. R34.6: the Assumptions "
+        "constructor is interpreted for every abstract statement form and "
+        "every recorded fact is compared with the set of values satisfying "
+        "the statement. R34.7: the Add/Mul handlers of the assumption-"
+        "driven visitors are judged against operand worlds (sign class x "
+        "number class) with an attainable-sum/product table.")
     R.rule("R34.1", "definite answers for numbers agree with the truth "
                     "table")
     R.rule("R34.2", "tribool result definitely assigned in every reachable "
@@ -385,6 +392,7 @@ def run(loader, R, tier):
     R.floor("handlers combining three-valued sub-answers", nmono, 70)
 
     assumption_ingest(prog, R)
+    world_soundness(prog, R, V)
 
 
 # ------------------------------------------------------------------ R34.6
@@ -575,21 +583,144 @@ def assumption_ingest(prog, R):
     R.floor("facts recorded over the abstract statement forms", nwrites, 150)
 
 
+# ------------------------------------------------------------------ R34.7
+def world_soundness(prog, R, V):
+    """the Add/Mul combination rules against abstract values: each child is
+    given a world (sign class x number class), the sub-answers are every
+    sound answer for that world, and a definite answer of the handler must
+    hold for every attainable world of the sum/product."""
+    from selib import tri
+    R.rule("R34.7", "definite answers of the Add/Mul combination rules hold "
+                    "for every attainable value of the operands")
+    R.exception("RationalVisitor", "R34.7: its Symbol handler consults no "
+                "assumptions, so definite sub-answers come only from "
+                "numbers and three named constants; the abstract worlds of "
+                "the oracle are not realisable by operands")
+    W = lambda w: "%s %s" % ({"int": "integer", "rat": "rational",
+                              "alg": "algebraic irrational",
+                              "transc": "transcendental",
+                              "inf": ""}[w[1]],
+                             {"neg": "negative", "pos": "positive",
+                              "zero": "zero", "nonreal": "non-real",
+                              "inf": "infinite"}[w[0]])
+    ndec = 0
+    for vis in V.visitors():
+        mem, applyf, pre = result_member(prog, V, vis)
+        if not mem or applyf is None or strip_type(
+                applyf.get("ret", "")) != "SymEngine::tribool":
+            continue
+        own = short(vis)[:-len("Visitor")].lower() \
+            if short(vis).endswith("Visitor") else None
+        if own not in tri.QUERIES:
+            continue
+        hs = V.handlers(vis).get("SymEngine::Symbol")
+        sf = prog.functions.get(hs) if hs else None
+        if sf is None or not any(
+                n.get("k") == "mem" and n.get("m") == "assumptions_"
+                for n in walk(sf["body"])):
+            continue            # children cannot be arbitrary (see above)
+        for cls in ("Add", "Mul"):
+            h = V.handlers(vis).get("SymEngine::" + cls)
+            f = prog.functions.get(h) if h else None
+            if f is None or not f.get("params") or strip_type(
+                    f["params"][0]["t"]) != "SymEngine::" + cls:
+                continue
+            loops = [n for n in walk(f["body"]) if n.get("k") == "forr"]
+            if len(loops) != 1 or not (loops[0].get("v") or {}).get("n"):
+                continue
+            var = loops[0]["v"]["n"]
+            rng = show(loops[0]["r"])
+            key = "%s::bvisit(%s)" % (short(vis), cls)
+            op = tri.world_sum if cls == "Add" else tri.world_prod
+            meta = {}
+            if "get_args" in rng:
+                n = 2
+                lv = tri.leaves(prog, f, mem, limit=30000, unroll=n,
+                                own=own, meta=meta)
+                objs = {"%s #%d" % (var, i): i for i in range(n)}
+                extra = None
+                what = "two arguments"
+            elif cls == "Mul" and "get_dict" in rng:
+                # coefficient * base**1: the exponent is fixed to one, so
+                # the factor has the world of its base
+                lv = tri.leaves(prog, f, mem, limit=30000, unroll=1,
+                                own=own, meta=meta)
+                objs = {"base #0": 0, "exp #0": ("pos", "int")}
+                for k, (o, _q) in meta.items():
+                    if o.startswith("sub(exp,") and "integer<int>(1" in o:
+                        objs[o] = ("zero", "int")
+
+                def extra(bools):
+                    w = None
+                    for k, v in bools.items():
+                        if "get_coef()" in k and "is_complex()" in k:
+                            w = ("nonreal", "alg") if v else ("pos", "int")
+                        else:
+                            return None
+                    return w
+                what = "coefficient * base**1"
+            else:
+                continue
+            if lv is None:
+                R.undecided_obligation("R34.7", key, "assignment explosion")
+                continue
+            ndec += 1
+            R.instance("R34.7", key, sample={
+                "handler": key, "shape": what, "assignments": len(lv)})
+            seen = set()
+            for a, r, ws, bad in tri.unsound_worlds(lv, meta, mem, own, op,
+                                                    objs, extra):
+                sig = "%s:%s" % ("true" if r == "T" else "false",
+                                 "*".join(w[0] for w in ws) if cls == "Mul"
+                                 else "+".join(w[0] for w in ws))
+                if sig in seen:
+                    continue
+                seen.add(sig)
+                subs = ", ".join("%s=%s" % (k[4:], v) for k, v in sorted(
+                    a.items()) if k.startswith("tri:"))[:220]
+                R.violation(
+                    "R34.7", key + ":" + sig, prog.loc(f),
+                    "%s answers %s for %s with operands that are %s "
+                    "(sub-answers %s), but such operands can give a result "
+                    "that is %s" % (
+                        key, "true" if r == "T" else "false", what,
+                        " and ".join(W(w).strip() for w in ws), subs,
+                        W(bad).strip()))
+    R.floor("Add/Mul combination handlers judged against worlds", ndec, 7)
+
+
 MANIFEST = dict(
-    technique="finite-domain abstract interpretation of the number handlers "
-              "against a truth table + definite-assignment analysis over the "
-              "resolved (visitor, class) dispatch table",
+    technique="finite-domain abstract interpretation (engine E3 with bounded "
+              "loop unrolling) of the query handlers against truth tables: "
+              "number points, Kleene monotonicity in three-valued "
+              "sub-answers, operand worlds (sign class x number class) for "
+              "the Add/Mul combination rules, abstract statement forms for "
+              "the Assumptions constructor; definite-assignment analysis "
+              "over the resolved (visitor, class) dispatch table",
     text="Decides (1) exhaustively over 19 abstract number points x 11 "
          "query visitors that every definite answer for a number agrees "
-         "with the mathematical truth table (so e.g. a sign query can never "
-         "be definitely true for zoo or a complex number); (2) that every "
-         "handler reachable in every tribool visitor (queries and the "
-         "matrix predicates) assigns the result on all non-throwing paths, "
-         "so no stale answer of a previous child is returned as definite; "
-         "(3) that is_nonzero/is_infinite/is_transcendental are not_tribool "
-         "of the primary visitor. Does not decide the Add/Mul/Pow "
-         "combination rules (loops over run-time dictionaries) nor the "
-         "Assumptions closure.",
-    note="Trusted: the truth table (oracle) and the number-domain atoms.",
+         "with the mathematical truth table; (2) that every handler "
+         "reachable in every tribool visitor assigns the result on all "
+         "non-throwing paths; (3) that is_nonzero/is_infinite/"
+         "is_transcendental are not_tribool of the primary visitor and sign "
+         "visitors consult only their strict dual; (4) for every handler "
+         "that combines three-valued sub-answers (loops unrolled 1 and 2 "
+         "times) that weakening a sub-answer to indeterminate never yields "
+         "a different definite answer; (5) for the Add/Mul handlers of the "
+         "assumption-driven visitors that every definite answer holds for "
+         "every attainable sum/product of operand worlds consistent with "
+         "the sub-answers (two arguments; coefficient * base**1 for the "
+         "dictionary form of Mul); (6) for every statement form "
+         "(LessThan/StrictLessThan/Equality/Unequality x orientation x "
+         "seven representative numbers, Contains x four sets) that the "
+         "Assumptions constructor records only facts every satisfying value "
+         "has. Does not decide Pow with a general exponent, the "
+         "PositiveVisitor dictionary rule beyond monotonicity and strict "
+         "duality, sums/products of more than two operands against worlds, "
+         "nor the function handlers' mathematics (e.g. Lindemann-"
+         "Weierstrass premises beyond monotonicity).",
+    note="Trusted: the truth tables (number points, query/world table, "
+         "attainable sum/product worlds, statement semantics), ~200 lines "
+         "in rules/c34.py and selib/tri.py.",
     ref="§2 C34",
 )
